@@ -154,8 +154,11 @@ type BuildReq struct {
 	PreferIndex bool     `json:"preferindex,omitempty"`
 	GC          string   `json:"gc,omitempty"` // "" | "before": run Project.GC() after load, before the build (as the test helper does)
 	NoRun       bool     `json:"norun,omitempty"`
-	Repeat      int      `json:"repeat,omitempty"` // run the same loaded Project this many extra times (as the REPL's run() does)
-	Order       []string `json:"order,omitempty"`  // package load order imposed through vf.gate (empty = free-running)
+	// PathsFor: labels whose record paths (relative to .dawn/build) the result should report; they are
+	// asked of dawn itself (VerifTargetInfoPath) so that no check depends on the layout of the state directory
+	PathsFor []string `json:"pathsfor,omitempty"`
+	Repeat   int      `json:"repeat,omitempty"` // run the same loaded Project this many extra times (as the REPL's run() does)
+	Order    []string `json:"order,omitempty"`  // package load order imposed through vf.gate (empty = free-running)
 	// crash injection (child processes only)
 	CrashSite  string `json:"crashsite,omitempty"`
 	CrashLabel string `json:"crashlabel,omitempty"`
@@ -165,21 +168,22 @@ type BuildReq struct {
 
 // BuildResult is what one build produced.
 type BuildResult struct {
-	LoadErr   string     `json:"loaderr,omitempty"`
-	RunErr    string     `json:"runerr,omitempty"`
-	GCErr     string     `json:"gcerr,omitempty"`
-	Panic     string     `json:"panic,omitempty"`
-	Events    []Event    `json:"events"`
-	Log       []LogEntry `json:"log"`
-	Crashed   bool       `json:"crashed,omitempty"` // child exited at the armed crash point
-	ExitCode  int        `json:"exitcode,omitempty"`
-	Stderr    string     `json:"stderr,omitempty"`
-	Hits      []string   `json:"hits,omitempty"` // crash-point hits "site label" in order (counting mode)
-	Targets   []string   `json:"targets,omitempty"`
-	Sources   []string   `json:"sources,omitempty"`
-	LoadIndex int        `json:"loadindex,omitempty"` // index into Events of the LoadDone event
-	SnapLoad  string     `json:"snapload,omitempty"`  // tree+state hash right after Load (dry runs)
-	SnapRun   string     `json:"snaprun,omitempty"`   // tree+state hash right after Run
+	LoadErr     string            `json:"loaderr,omitempty"`
+	RunErr      string            `json:"runerr,omitempty"`
+	GCErr       string            `json:"gcerr,omitempty"`
+	Panic       string            `json:"panic,omitempty"`
+	Events      []Event           `json:"events"`
+	Log         []LogEntry        `json:"log"`
+	Crashed     bool              `json:"crashed,omitempty"` // child exited at the armed crash point
+	ExitCode    int               `json:"exitcode,omitempty"`
+	Stderr      string            `json:"stderr,omitempty"`
+	Hits        []string          `json:"hits,omitempty"` // crash-point hits "site label" in order (counting mode)
+	Targets     []string          `json:"targets,omitempty"`
+	Sources     []string          `json:"sources,omitempty"`
+	RecordPaths map[string]string `json:"recordpaths,omitempty"` // label -> record path relative to .dawn/build (see BuildReq.PathsFor)
+	LoadIndex   int               `json:"loadindex,omitempty"`   // index into Events of the LoadDone event
+	SnapLoad    string            `json:"snapload,omitempty"`    // tree+state hash right after Load (dry runs)
+	SnapRun     string            `json:"snaprun,omitempty"`     // tree+state hash right after Run
 }
 
 // OK reports whether load and run succeeded.
@@ -408,6 +412,17 @@ func RunBuild(env *Env, req BuildReq, logOff int) (res BuildResult, newOff int) 
 			res.Targets = append(res.Targets, t.Label().String())
 		}
 		res.Sources = proj.Sources()
+		if len(req.PathsFor) > 0 {
+			res.RecordPaths = map[string]string{}
+			state := filepath.Join(env.Root(), ".dawn", "build")
+			for _, ls := range req.PathsFor {
+				if l, err := label.Parse(ls); err == nil {
+					if rel, err := filepath.Rel(state, dawn.VerifTargetInfoPath(proj, l)); err == nil {
+						res.RecordPaths[ls] = filepath.ToSlash(rel)
+					}
+				}
+			}
+		}
 		if req.GC == "before" {
 			if err := proj.GC(); err != nil {
 				res.GCErr = err.Error()
